@@ -280,11 +280,11 @@ _R = ["c10.go", "common.go"]
 CHECKS["C10"] = {
     "harnesses": [
         H(".", _R, "VerifH_C10_glyf", ["subset"], quick={"params": {"maxlisted": 1}, "timeout": 280}, thorough={"params": {"maxlisted": 2}, "timeout": 2400}),
-        H(".", _R, "VerifH_C10_cmap", ["subset"], quick={"timeout": 280}),
+        H(".", _R, "VerifH_C10_cmap", ["subset"], quick={"timeout": 280, "shards": 3}),
         H(".", _R, "VerifH_C10_layout", ["subset", "ligature", "kerning"], quick={"timeout": 280}),
         H(".", _R, "VerifH_C10_cff", ["subset"], quick={"timeout": 280}),
     ],
-    "bounds": {"quick": "TrueType font of 6 glyphs (3 simple, 2 composites with symbolic component ids incl. a nested composite, one empty glyph); glyph lists [0, g1] [thorough: [0, g1, g2]] with symbolic distinct members in any order, nondeterministic map iteration order; format 12 cmap over 3 characters with symbolic target glyphs; one GSUB 4.1 ligature rule and one GPOS 2.1 pair among 4 glyphs with symbolic glyph lists of 2..3 members; a CID-keyed CFF font with 5 glyphs, 3 font dictionaries and a symbolic FD assignment",
+    "bounds": {"quick": "TrueType font of 6 glyphs (3 simple, 2 composites with symbolic component ids incl. a nested composite, one empty glyph); glyph lists [0, g1] [thorough: [0, g1, g2]] with symbolic distinct members in any order, nondeterministic map iteration order; format 12 cmap over 4 characters (three consecutive ones) with symbolic target glyphs and glyph lists of 1..3 members; one GSUB 4.1 ligature rule and one GPOS 2.1 pair between two symbolic glyphs (the ligature glyph included) among 4 glyphs with symbolic glyph lists of 2..3 members; a CID-keyed CFF font with 5 glyphs, 3 font dictionaries and a symbolic FD assignment",
                "thorough": "3 listed glyphs"},
     "outside": ["simple CFF fonts and built-in encodings", "GSUB 1.1 rules, format 4 cmaps", "writing and re-reading the subset", "fonts with more than 6 glyphs"],
     "assumptions": ["glyph names identify outlines when checking that component references and ligature results point to the same outline"],
@@ -308,6 +308,7 @@ CHECKS["C15"] = {
         H(".", ["c15.go", "common.go"], "VerifH_C15_plain", ["laid out"], quick={"params": {"maxlen": 2}, "timeout": 280}, thorough={"params": {"maxlen": 3}, "timeout": 2400}),
         H(".", ["c15.go", "common.go"], "VerifH_C15_kern", ["laid out"], quick={"timeout": 280}),
         H(".", ["c15.go", "common.go"], "VerifH_C15_liga", ["ligatures"], quick={"timeout": 280}),
+        H(".", ["c15.go", "common.go"], "VerifH_C15_switches", ["laid out"], quick={"timeout": 280}),
         H("opentype/gtab", ["c15.go", "common.go"], "VerifH_C15_find", ["found"], quick={"timeout": 280}),
         H("kern", "c02.go", "VerifH_C02_kern", ["accepted"], quick={"params": {"maxpairs": 1}, "timeout": 280, "shards": 3}),
     ],
@@ -332,6 +333,7 @@ CHECKS["C18"] = {
 
 CHECKS["C01"] = {
     "harnesses": [
+        H(".", ["c01.go", "common.go"], "VerifH_C01_shapes", ["read back"], quick={"timeout": 280, "shards": 6}),
         H(".", ["c01.go", "common.go"], "VerifH_C01_truetype", ["read back"], quick={"params": {"upems": 2, "widthclasses": 2, "symwidths": 2, "perms": 2}, "timeout": 290, "shards": 12}, thorough={"params": {"upems": 3, "widthclasses": 9, "symwidths": 4, "symweight": 1, "perms": 4}, "timeout": 3000, "shards": 16}),
     ],
     "level_text": "Compositional and bounded: the table-level round trips and fixed points are decided by the checks of C03, C08, C09, C11, C12, C13 and C14; this check adds the whole-font merge (Font.Write -> sfnt.Read -> Font.Write) executed symbolically on a tiny TrueType font of concrete shape with symbolic numeric fields.  It holds for all values of those fields within the bounds, and says nothing about other font shapes.",
@@ -356,14 +358,15 @@ _B = ["c19.go"]
 CHECKS["C19"] = {
     "harnesses": [
         H("opentype/gtab/builder", _B, "VerifH_C19_templates", ["done"], quick={"timeout": 100}),
-        H("opentype/gtab/builder", _B, "VerifH_C19_roundtrip", ["done"], quick={"params": {"fonts": 2, "maxgid": 3, "vrfields": 1}, "timeout": 280, "shards": 10},
-          thorough={"params": {"fonts": 4, "maxgid": 7}, "timeout": 3000, "shards": 10}),
+        H("opentype/gtab/builder", _B, "VerifH_C19_roundtrip", ["done"], quick={"params": {"fonts": 2, "maxgid": 3, "vrfields": 1}, "timeout": 280, "shards": 11},
+          thorough={"params": {"fonts": 4, "maxgid": 7}, "timeout": 3000, "shards": 11}),
+        H("opentype/gtab/builder", _B, "VerifH_C19_nocmap", ["done"], quick={"timeout": 280, "shards": 12}),
         H("opentype/gtab/builder", _B, "VerifH_C19_sched", ["done"], quick={"params": {"preemptions": 2}, "timeout": 280, "shards": 3}, thorough={"params": {"preemptions": 4}, "timeout": 3000, "shards": 3}),
         H("opentype/gtab/builder", _B, "VerifH_C19_text", ["accepted", "rejected"], quick={"params": {"window": 1}, "timeout": 280, "shards": 12},
           thorough={"params": {"window": 2}, "timeout": 3000, "shards": 12}),
     ],
     "level_text": "Bounded symbolic execution of builder.Parse / ExplainGsub / ExplainGpos including the lexer, string-decoder and parser goroutines: the engine runs interpreted goroutines with a channel model (unbuffered and buffered channels, close, range), reports 'all goroutines are asleep' as a deadlock, a panic in any goroutine as a crash and goroutines that can never finish as leaks.  Texts are valid descriptions with a window of arbitrary bytes; lookup lists have concrete shape with symbolic flags, glyph ids, value records and nested actions.",
-    "bounds": {"quick": "12 valid descriptions (GSUB 1-6, GPOS 1-4, all subtable alternatives the language has syntax for) with every window of 1 arbitrary ASCII byte [thorough: 2 bytes] at every position, over a font of 8 named and mapped glyphs; round trip Parse(Explain(L)) == L for 10 lookup kinds (GSUB 1.1/1.2/2.1/3.1/4.1 with two ligatures, context 5.1, chained context 6.3, GPOS 1.1/1.2/2.1) with all 8 subsets of the ignore flags, glyph ids symbolic in 1..3 [1..7 thorough], value records (nil or not) with one field over all of int16 and two fields present/absent [thorough: all three over int16], nested action indices symbolic uint16, over 2 fonts (named and mapped / neither) [thorough: all 4 combinations]; goroutine schedule: deterministic (run until blocked) in these harnesses; all interleavings of the lexer and parser goroutines at channel-operation granularity with at most 2 [thorough: 4] preemptive context switches for 3 short descriptions (12..17 bytes, up to 8 tokens, one of them over two lines) with one arbitrary ASCII byte at any position",
+    "bounds": {"quick": "12 valid descriptions (GSUB 1-6, GPOS 1-4, all subtable alternatives the language has syntax for) with every window of 1 arbitrary ASCII byte [thorough: 2 bytes] at every position, over a font of 8 named and mapped glyphs; round trip Parse(Explain(L)) == L for 11 lookup kinds (GSUB 1.1/1.2/2.1/3.1/4.1 with two ligatures, context 5.1, class based context 5.2 with rules for two first classes, chained context 6.3, GPOS 1.1/1.2/2.1) with all 8 subsets of the ignore flags, glyph ids symbolic in 1..3 [1..7 thorough], value records (nil or not) with one field over all of int16 and two fields present/absent [thorough: all three over int16], nested action indices symbolic uint16, over 2 fonts (named and mapped / neither) [thorough: all 4 combinations]; goroutine schedule: deterministic (run until blocked) in these harnesses; all interleavings of the lexer and parser goroutines at channel-operation granularity with at most 2 [thorough: 4] preemptive context switches for 3 short descriptions (12..17 bytes, up to 8 tokens, one of them over two lines) with one arbitrary ASCII byte at any position",
                "thorough": "window of 2 bytes"},
     "outside": ["texts further than a 2-byte window from the 12 templates (random / grammar-derived texts)", "non-ASCII bytes in the window unless param ascii=0", "GPOS 2.2/3/4 and class based contexts in the symbolic round trip (covered by the concrete templates only)", "real OS-thread interleavings (GOMAXPROCS): goroutines are interleaved at channel operations", "numbers with more than 18 digits"],
     "assumptions": ["goroutines communicate through channels only (interleaving at channel operations is then exhaustive)", "lookup lists in the normal form the parser produces (coverage order, value record nil iff all zero)"],
